@@ -498,4 +498,93 @@ theorem late_delivery (c : Cfg) (hw : WF c) (s : St) (hi : Inv c s) (hd : s.sh.o
         case commit =>
           simp [wstep, hnil, done_commitP c hw.d2 _ _ hd]
 
+/-- a `stop()` call that has started never becomes "not called" again, and a thread other than the
+processor does not move the processor -/
+theorem started_persist (c : Cfg) (hw : WF c) (s s' : St) (t : Tid) (k : Nat) (h : tstep c s t k = some s') :
+    (∀ i : Nat, s'.ks[i]? = some KPc.idle → s.ks[i]? = some KPc.idle) ∧ (t ≠ .proc → s'.proc = s.proc) := by
+  cases t with
+  | recv => simp only [tstep] at h; cases hr : rstep c s.sh k s.recv <;> simp [hr] at h; subst h; exact ⟨fun i hi => hi, fun _ => rfl⟩
+  | send => simp only [tstep] at h; cases hr : sstep c s.sh s.send <;> simp [hr] at h; subst h; exact ⟨fun i hi => hi, fun _ => rfl⟩
+  | proc => simp only [tstep] at h; cases hr : pstep c s.sh s.proc <;> simp [hr] at h; subst h; exact ⟨fun i hi => hi, fun hne => absurd rfl hne⟩
+  | w i =>
+    simp only [tstep] at h
+    cases hk : s.ws[i]? with
+    | none => simp [hk] at h
+    | some w => cases hr : wstep c s.sh (.w i) w <;> simp [hk, hr] at h; subst h; exact ⟨fun i hi => hi, fun _ => rfl⟩
+  | k i =>
+    simp only [tstep] at h
+    cases hk : s.ks[i]? with
+    | none => simp [hk] at h
+    | some pc =>
+      cases hr : kstep c s.sh (.k i) pc with
+      | none => simp [hk, hr] at h
+      | some q =>
+        obtain ⟨sh', pc'⟩ := q
+        simp [hk, hr] at h; subst h
+        refine ⟨?_, fun _ => rfl⟩
+        intro j hj
+        by_cases hij : i = j
+        · subst hij
+          have hlt : i < s.ks.length := (List.getElem?_eq_some_iff.mp hk).1
+          simp [List.getElem?_set_self hlt] at hj
+          exact absurd hj (kstep_frameE c hw _ _ _ _ _ hr).2
+        · simpa [List.getElem?_set_ne hij] using hj
+
+theorem started_persist_run (c : Cfg) (hw : WF c) (s : St) (sched : List Label)
+    (hth : ∀ l, l ∈ sched → ∃ t k, l = .th t k) :
+    ∀ i : Nat, (run c s sched).ks[i]? = some KPc.idle → s.ks[i]? = some KPc.idle := by
+  induction sched generalizing s with
+  | nil => exact fun i hi => hi
+  | cons l ls ih =>
+    have hls : ∀ l', l' ∈ ls → ∃ t k, l' = .th t k := fun l' hl' => hth l' (List.mem_cons_of_mem _ hl')
+    simp only [run]
+    cases h : step c s l with
+    | none => exact ih s hls
+    | some s' =>
+      obtain ⟨t, k, rfl⟩ := hth l (List.mem_cons_self ..)
+      intro i hi
+      exact (started_persist c hw s s' t k h).1 i (ih s' hls i hi)
+
+/-- while the connection a delivery is addressed to stays open, not reading and full, no step of
+this connection's threads gets the processor out of that delivery -/
+theorem held_persist_run (c : Cfg) (hw : WF c) (s : St) (sched : List Label)
+    (hth : ∀ l, l ∈ sched → ∃ t k, l = .th t k) (hh : HeldByThird s = true) :
+    HeldByThird (run c s sched) = true ∧ Final (run c s sched) = false := by
+  induction sched generalizing s with
+  | nil =>
+    refine ⟨hh, ?_⟩
+    simp only [HeldByThird, Bool.and_eq_true] at hh
+    cases hp : s.proc <;> simp [hp] at hh
+    simp [run, Final, hp]
+  | cons l ls ih =>
+    have hls : ∀ l', l' ∈ ls → ∃ t k, l' = .th t k := fun l' hl' => hth l' (List.mem_cons_of_mem _ hl')
+    simp only [run]
+    cases h : step c s l with
+    | none => exact ih s hls hh
+    | some s' =>
+      obtain ⟨t, k, rfl⟩ := hth l (List.mem_cons_self ..)
+      apply ih s' hls
+      have hx := (persist_tstep c hw s s' t k h).2.2
+      simp only [HeldByThird, Bool.and_eq_true] at hh ⊢
+      by_cases htp : t = .proc
+      · subst htp
+        exfalso
+        simp only [step, tstep] at h
+        cases hp : s.proc <;> simp [hp] at hh
+        rename_i as
+        cases as with
+        | nil => simp at hh
+        | cons a rest =>
+          cases a with
+          | own l => simp at hh
+          | foreign => simp [hp, pstep, hh.1] at h
+      · have := (started_persist c hw s s' t k h).2 htp
+        rw [hx, this]; exact hh
+
+/-- the configuration of the closed counterexamples and examples of `Properties/C16.lean`: a
+16-byte ring, 8-byte blocks -/
+def c0 : Cfg := { cap := 16, rblock := 8, wblock := 8 }
+
+theorem c0_wf : WF c0 := ⟨rfl, rfl, by decide, by decide, by decide⟩
+
 end Mqtt.Proofs.Lifecycle
